@@ -3,6 +3,7 @@ package sim
 import (
 	"context"
 	"fmt"
+	"net/url"
 	"os"
 	"path/filepath"
 	"sort"
@@ -85,8 +86,12 @@ func (e *e13) url(loc string) string {
 	if loc == "mem" {
 		return rosmar.InMemoryURL
 	}
-	return "rosmar://" + filepath.Join(e.root, loc)
+	// (escaped the way a caller that builds the URL properly does; for plain names nothing changes)
+	return "rosmar://" + (&url.URL{Path: filepath.Join(e.root, loc)}).EscapedPath()
 }
+
+// oddLoc is a directory whose name needs escaping in a URL (and whose escapes must be undone exactly once).
+const oddLoc = "my dir%41é"
 
 func RunE13(t *testing.T, p *Program, withLog bool) *RunResult {
 	res := &RunResult{}
@@ -542,7 +547,7 @@ func (e *e13) probeAll() *Violation {
 		}
 	}
 	// directories
-	for _, loc := range []string{"dirA", "dirB", "dira"} {
+	for _, loc := range []string{"dirA", "dirB", "dira", oddLoc} {
 		lk := filepath.Join(e.root, loc)
 		_, statErr := os.Stat(filepath.Join(lk, "rosmar.sqlite3"))
 		if e.stores[lk] != nil && statErr != nil {
@@ -567,6 +572,8 @@ func GenE13(prop string, seed uint64) *Program {
 		locs = []string{"dirA", "dirB"}
 	} else if r.Chance(30) {
 		locs = []string{"dirA", "dira"} // two directories whose URLs differ only in case
+	} else if r.Chance(40) {
+		locs = []string{"mem", oddLoc, "dirB"}
 	}
 	modes := []string{"any", "any", "new", "reopen"}
 	withFeeds := prop == "C16" || r.Chance(30)
